@@ -7,6 +7,7 @@ obligations at the end of this file, which are about the table REGENERATED from 
 run (Gkv/Gen/Consts.lean).
 -/
 import Gkv.Proofs.Codec
+import Gkv.Proofs.CodecFull
 import Gkv.Proofs.FlushCoherent
 import Gkv.Gen.Consts
 open Std
@@ -40,6 +41,14 @@ theorem root_roundtrip_partial (pre : Bytes) (es : List (Bytes × Option Ploc))
     (hsz : pre.length + (encRoot pre.length es).length < 2^32) :
     rootAt (pre ++ encRoot pre.length es) (pre.length + (encRoot pre.length es).length) = some es :=
   rootAt_encRoot_partial pre es hn hp hsz
+
+/-- root records round-trip for ARBITRARY collection names (every byte string: quotes, backslashes,
+    control bytes, `<>&`, U+2028/U+2029 and bytes >= 0x80 included) -/
+theorem root_roundtrip (pre : Bytes) (es : List (Bytes × Option Ploc))
+    (hp : ∀ e ∈ es, ∀ q, e.2 = some q → ¬ (q.off = 0 ∧ q.len = 0))
+    (hsz : pre.length + (encRoot pre.length es).length < 2^32) :
+    rootAt (pre ++ encRoot pre.length es) (pre.length + (encRoot pre.length es).length) = some es :=
+  rootAt_encRoot pre es hp hsz
 
 /-- the independent decoder reconstructs, from the last root record of a flushed file, exactly
     the flushed state (names, comparators, items, aggregates, and the locations themselves) -/
